@@ -1,3 +1,170 @@
+/-
+  Driver/C06.lean — replays a C06 trace (the real RIB on top of each of the two real FIBs) through
+  the Lean RIB model (expected output → DIFF) and evaluates the specification (C06/Spec.lean:
+  route map + `flatten` + LPM) on the implementation's own outputs (→ SPEC).
+
+  protocol (see harness/c06/c06_test.go):
+    new <m> <n1>,<n2>,…                          => ok
+    reg <name> <face> <origin> <cost> <flags>    => ok
+    unreg <name> <face> <origin>                 => ok
+    cleanup <face>                               => ok
+    qa                                           => T <hops>|<hops>|…  H <hops>|…      (FindNextHopsEnc per universe name)
+    lf                                           => T <name>=<hops>;… H …                 (GetAllFIBEntries)
+    lr                                           => T <name>=<face>/<origin>/<cost>/<flags>,…;… H …   (Rib.GetAllEntries)
+-/
 import NdnVerif.Driver.Common
--- stub: replaced by the C06 model driver
-def main : IO Unit := IO.println "DONE lines=0 histories=0 diffs=0 specs=0 skipped=0"
+import NdnVerif.C06.Model
+open Ndn Ndn.Driver Ndn.C05 Ndn.C06
+
+namespace C06Driver
+
+def insertBy {α : Type} (lt : α → α → Bool) (x : α) : List α → List α
+  | [] => [x]
+  | y :: t => if lt x y then x :: y :: t else y :: insertBy lt x t
+
+def sortBy {α : Type} (lt : α → α → Bool) (l : List α) : List α := l.foldl (fun acc x => insertBy lt x acc) []
+
+def renderHops (h : Hops) : String :=
+  if h.isEmpty then "-"
+  else ",".intercalate ((sortBy (fun a b => a.1 < b.1 || (a.1 == b.1 && a.2 < b.2)) h).map fun p => s!"{p.1}:{p.2}")
+
+def renderListing (l : List (String × String)) : String :=
+  if l.isEmpty then "-"
+  else ";".intercalate ((sortBy (fun a b => a.1 < b.1 || (a.1 == b.1 && a.2 < b.2)) l).map fun p => p.1 ++ "=" ++ p.2)
+
+def renderFib (l : List (Name × Hops)) : String := renderListing (l.map fun p => (p.1.toText, renderHops p.2))
+
+def routeLt (a b : Route) : Bool :=
+  a.face < b.face || (a.face == b.face && (a.origin < b.origin || (a.origin == b.origin &&
+    (a.cost < b.cost || (a.cost == b.cost && a.flags < b.flags)))))
+
+def renderRoutes (rs : List Route) : String :=
+  ",".intercalate ((sortBy routeLt rs).map fun r => s!"{r.face}/{r.origin}/{r.cost}/{r.flags}")
+
+def renderRib (l : List (Name × List Route)) : String := renderListing (l.map fun p => (p.1.toText, renderRoutes p.2))
+
+structure DSt where
+  univ : List Name := []
+  model : C06.St := C06.St.init []
+  spec : C06.Spec := C06.Spec.init
+  removed : Bool := false
+
+def splitTH (got : String) : Option (String × String) :=
+  if got.startsWith "T " then
+    match (got.drop 2).toString.splitOn " H " with
+    | [x, y] => some (x, y)
+    | _ => none
+  else none
+
+def firstDiff (a b : List String) (i : Nat := 0) : Option (Nat × String × String) :=
+  match a, b with
+  | [], [] => none
+  | x :: xs, y :: ys => if x == y then firstDiff xs ys (i + 1) else some (i, x, y)
+  | x :: _, [] => some (i, x, "<missing>")
+  | [], y :: _ => some (i, "<missing>", y)
+
+/-- classify a wrong lookup: the implementation forwards to faces the flattening does not
+    contain (`extra`), misses some (`missing`) or has a wrong cost (`cost`) -/
+def classify (want got : String) : String :=
+  let faces (s : String) : List String := if s == "-" then [] else (s.splitOn ",").map fun x => (x.splitOn ":").headD ""
+  let fw := faces want
+  let fg := faces got
+  if fg.any (fun f => !fw.contains f) then "extra-face"
+  else if fw.any (fun f => !fg.contains f) then "missing-face"
+  else "cost"
+
+def lookupSpec (which : String) (names : List Name) (want got : List String) : List SpecFail :=
+  match firstDiff want got with
+  | none => []
+  | some (i, w, g) =>
+    let nm := (names.getD i []).toText
+    [⟨"fib-eq-flatten", which ++ ":" ++ classify w g,
+      s!"RIB over {which} FIB: lookup of {nm} must give {w} (flattening of the registered routes), implementation returned {g}"⟩]
+
+def listSpec (clause which : String) (want got : String) : List SpecFail :=
+  if want == got then []
+  else
+    let root := (got.startsWith "/=" || (got.splitOn ";/=").length > 1) && !(want.startsWith "/=")
+    [⟨clause, which ++ (if root then ":root-entry" else ""), s!"RIB over {which} FIB: listing is {got}, must be exactly {want}"⟩]
+
+def mutate (st : DSt) (op : C06.Op) (got : String) : StepResult DSt :=
+  let m' := st.model.apply op
+  let s' := st.spec.apply op
+  let covP := if m'.rib.nodes.length + 1 < st.model.rib.nodes.length then ["rib-prune-chain"]
+    else if m'.rib.nodes.length < st.model.rib.nodes.length then ["rib-prune-leaf"]
+    else if m'.rib.nodes.length > st.model.rib.nodes.length + 1 then ["rib-fill-chain"]
+    else if m'.rib.nodes.length > st.model.rib.nodes.length then ["rib-fill-one"] else []
+  let covO := match op with
+    | .reg n r =>
+      [if (st.spec.routesAt n).any (fun x => x.sameKey r.face r.origin) then "reg-update" else "reg-new",
+       if r.capture then "reg-capture" else "reg-nocapture", if r.childInherit then "reg-inherit" else "reg-noinherit"]
+      ++ (if (st.spec.routesAt n).any (fun x => x.face == r.face && x.origin != r.origin) then ["reg-same-face-other-origin"] else [])
+    | .unreg n f o =>
+      [if (st.spec.routesAt n).any (fun x => x.sameKey f o) then
+         (if (st.spec.routesAt n).length == 1 then "unreg-last" else "unreg-hit") else "unreg-miss"]
+    | .cleanup f =>
+      let k := (st.spec.routes.filter fun p => p.2.any fun r => r.face == f).length
+      [if k == 0 then "cleanup-none" else if k == 1 then "cleanup-one" else "cleanup-many"]
+      ++ (if st.spec.routes.any (fun p => (p.2.filter fun r => r.face == f).length ≥ 2) then ["cleanup-two-origins"] else [])
+      ++ (if (st.spec.routesAt []).any (fun r => r.face == f) then ["cleanup-root"] else [])
+  let removed := st.removed || (match op with | .reg .. => false | _ => true)
+  { st := { st with model := m', spec := s', removed := removed }, expected := some "ok", cov := covP ++ covO,
+    spec := if isCrash got then [⟨"no-panic", "op", s!"RIB operation crashed: {got}"⟩] else [] }
+
+def inhTag (s : C06.Spec) (n : Name) : List String :=
+  let own := s.routesAt n
+  if own.isEmpty then []
+  else if own.any Route.capture then ["flatten-own-capture"]
+  else
+    let inh := inherited s.routesAt n n.length
+    let stopped := (List.range n.length).any fun k => (s.routesAt (n.take k)).any Route.capture
+    (if inh.isEmpty then ["flatten-no-inherit"] else ["flatten-inherit"]) ++ (if stopped then ["flatten-ancestor-capture"] else [])
+
+def dedup (l : List String) : List String := l.foldl (fun acc x => if acc.contains x then acc else acc ++ [x]) []
+
+def step (st : DSt) (op : String) (got : String) : StepResult DSt :=
+  match op.splitOn " " with
+  | ["new", m, names] =>
+    match m.toNat?, (names.splitOn ",").mapM Name.ofText with
+    | some _, some univ => { st := { univ := univ }, expected := some "ok" }
+    | _, _ => { st := {}, expected := some "bad-op" }
+  | ["reg", n, f, o, c, fl] =>
+    match Name.ofText n, f.toNat?, o.toNat?, c.toNat?, fl.toNat? with
+    | some n, some f, some o, some c, some fl => mutate st (.reg n ⟨f, o, c, fl⟩) got
+    | _, _, _, _, _ => { st := st, expected := some "bad-op" }
+  | ["unreg", n, f, o] =>
+    match Name.ofText n, f.toNat?, o.toNat? with
+    | some n, some f, some o => mutate st (.unreg n f o) got
+    | _, _, _ => { st := st, expected := some "bad-op" }
+  | ["cleanup", f] =>
+    match f.toNat? with
+    | some f => mutate st (.cleanup f) got
+    | _ => { st := st, expected := some "bad-op" }
+  | ["qa"] =>
+    let want := st.univ.map fun n => renderHops (st.spec.lookup n)
+    let mm := "|".intercalate (st.univ.map fun n => renderHops (st.model.fib.lpmNextHops n))
+    let sp := match splitTH got with
+      | some (x, y) => lookupSpec "tree" st.univ want (x.splitOn "|") ++ lookupSpec "hash" st.univ want (y.splitOn "|")
+      | none => [⟨"no-panic", "qa", s!"lookup crashed or malformed: {got.take 200}"⟩]
+    { st := st, expected := some s!"T {mm} H {mm}", spec := sp,
+      cov := dedup (st.univ.flatMap (inhTag st.spec)),
+      nontrivial := st.removed && st.spec.routes.length ≥ 2 }
+  | ["lf"] =>
+    let want := renderFib st.spec.listFib
+    let mm := renderFib st.model.fib.listFib
+    let sp := match splitTH got with
+      | some (x, y) => listSpec "fib-entries" "tree" want x ++ listSpec "fib-entries" "hash" want y
+      | none => [⟨"no-panic", "lf", s!"listing crashed or malformed: {got.take 200}"⟩]
+    { st := st, expected := some s!"T {mm} H {mm}", spec := sp }
+  | ["lr"] =>
+    let want := renderRib st.spec.listRib
+    let mm := renderRib st.model.rib.list
+    let sp := match splitTH got with
+      | some (x, y) => listSpec "rib-entries" "tree" want x ++ listSpec "rib-entries" "hash" want y
+      | none => [⟨"no-panic", "lr", s!"listing crashed or malformed: {got.take 200}"⟩]
+    { st := st, expected := some s!"T {mm} H {mm}", spec := sp }
+  | _ => { st := st, expected := some "bad-op" }
+
+end C06Driver
+
+def main : IO Unit := Ndn.Driver.run ({} : C06Driver.DSt) C06Driver.step
